@@ -877,18 +877,27 @@ def extra_lane(tier, seed):
     env['VM_PLUGIN_OUT'] = out
     env['PYTHONDONTWRITEBYTECODE'] = '1'
     try:
-        try:
-            subprocess.run([common.PY, '-m', 'pytest', '-q', '-p',
-                            'no:cacheprovider', '-p', 'vm.pytest_plugin',
-                            '-x' if False else '-q', 'biom'], cwd=common.REPO,
-                           env=env, capture_output=True, text=True,
-                           timeout=1500)
-        except subprocess.TimeoutExpired:
-            return [], {'status': 'watchdog'}, ['suite lane hit the watchdog']
-        try:
-            d = json.load(open(out))
-        except Exception:
-            return [], {'status': 'no-output'}, ['suite lane wrote no result']
+        d = None
+        tail = ''
+        for attempt in (1, 2):
+            try:
+                pr = subprocess.run([common.PY, '-m', 'pytest', '-q', '-p',
+                                     'no:cacheprovider', '-p',
+                                     'vm.pytest_plugin', 'biom'],
+                                    cwd=common.REPO, env=env,
+                                    capture_output=True, text=True,
+                                    timeout=1500)
+            except subprocess.TimeoutExpired:
+                return [], {'status': 'watchdog'}, \
+                    ['suite lane hit the watchdog']
+            try:
+                d = json.load(open(out))
+                break
+            except Exception:
+                tail = (pr.stdout[-600:] + ' | ' + pr.stderr[-600:])
+        if d is None:
+            return [], {'status': 'no-output', 'pytest_tail': tail}, \
+                ['suite lane wrote no result (twice): ' + tail[-300:]]
     finally:
         if os.path.exists(out):
             os.remove(out)
